@@ -114,6 +114,42 @@ theorem C15_first_regress_new_none_early :
     New.run Flags.current alone 7 tb 0 1 hist = (.ret 1 .none, tb) ∧ first alone 0 1 hist = .ret 1 .none := by
   decide
 
+/-! ## `"startup"` / `"shutdown"` entries of the time_trigger list -/
+
+/-- **The entries are ignored (both subsystems, current code)**, whatever the arguments, the timeline and the entries:
+a call whose `time_trigger` list holds `"startup"` / `"shutdown"` (or is empty) behaves exactly like the call with
+the remaining specifications – so every theorem of this file about `runAt` speaks about such calls too. -/
+theorem C15_entries_ignored (en : Entries) (fl : Flags) (cfg : Cfg) (q : Nat) (tb : Tables) (v call : Nat) (full : Hist) :
+    Legacy.runAtE en fl cfg q tb v call full = Legacy.runAt fl cfg q tb v call full ∧
+    New.runAtE entriesActedCurrent en fl cfg q tb v call full = New.runAt fl cfg q tb v call full := by
+  constructor
+  · rfl
+  · simp [New.runAtE, New.exitWithEntries, entriesActedCurrent]
+
+/-- **Regression witness (new), fixed finding C15-F8.**  `time_trigger=["startup"]` next to an event trigger: the
+pre-fix shape returns a `time` result at the call; `time_trigger=["shutdown"]` next to an event trigger: the pre-fix
+shape replaces the event that ends the wait (and a timeout likewise) by a `time` result; the repaired shape returns
+the event / the timeout like legacy and the specification.  A check-now hit still wins in the pre-fix shape. -/
+theorem C15_first_regress_new_entries :
+    let cfg : Cfg := { state := Option.none, time := .abs 0, mqtt := Option.none, timeout := Option.none,
+                       event := some { filt := Option.none, parseOK := true } }
+    let withTo : Cfg := { cfg with timeout := some 500 }
+    let chk : Cfg := { cfg with state := some { expr := fun v => some (decide (v = 5)), checkNow := true, parseOK := true } }
+    let tb : Tables := { stSubs := [], evSubs := [], evListeners := 0, mqSubs := [], mqListeners := 0, tasks := 0 }
+    let hist : Hist := [(1001, .event 4)]
+    let su : Entries := { startup := true, shutdown := false }
+    let sd : Entries := { startup := false, shutdown := true }
+    first cfg 0 1 hist = .ret 1001 (.event 4) ∧
+    (Legacy.runAtE su Flags.current cfg 7 tb 0 1 hist).1 = .ret 1001 (.event 4) ∧
+    (New.runAtE entriesActedPreFix su Flags.current cfg 7 tb 0 1 hist).1 = .ret 1 (.time 1) ∧
+    (New.runAtE entriesActedPreFix sd Flags.current cfg 7 tb 0 1 hist).1 = .ret 1001 (.time 1001) ∧
+    (New.runAtE entriesActedPreFix sd Flags.current withTo 7 tb 0 1 hist).1 = .ret 501 (.time 501) ∧
+    (New.runAtE entriesActedPreFix su Flags.current chk 7 tb 5 1 hist).1 = .ret 1 (.state Option.none) ∧
+    New.runAtE entriesActedCurrent su Flags.current cfg 7 tb 0 1 hist = (.ret 1001 (.event 4), tb) ∧
+    New.runAtE entriesActedCurrent sd Flags.current cfg 7 tb 0 1 hist = (.ret 1001 (.event 4), tb) ∧
+    New.runAtE entriesActedCurrent sd Flags.current withTo 7 tb 0 1 hist = (.ret 501 .timeout, tb) := by
+  decide
+
 /-! ## occurrences before the call or after the return -/
 
 /-- **Before the call.**  The whole timeline before the call matters only through the value the watched variable has
